@@ -2,6 +2,7 @@
 raising; spec mode: the same syntax read as logic, no forking, quantifiers from all()/any())."""
 import ast
 import enum
+import os
 import logging
 import types
 import z3
@@ -1206,8 +1207,13 @@ class ExprMixin:
             return False
         if z3.is_true(cond) and not st.pc:
             return True
-        s = self._prune_solver
-        s.push()
+        mode = os.environ.get("PYVC_PRUNE", "shared")
+        fresh = mode != "shared"
+        # "fresh" / "fresh-tactic": a new solver object for every query, no push/pop history (the fallback modes of a
+        # worker whose earlier attempt crashed inside libz3; same answers up to `unknown`, which keeps the path)
+        s = self._prune_solver if not fresh else z3.SimpleSolver() if mode == "fresh" else z3.Solver()
+        if mode != "fresh-tactic":
+            s.push()
         try:
             # resource limit instead of a wall-clock timeout: deterministic, and no timer thread
             s.set("rlimit", 300000)
@@ -1216,4 +1222,5 @@ class ExprMixin:
             self.stats["prune_queries"] += 1
             return s.check() != z3.unsat
         finally:
-            s.pop()
+            if not fresh:
+                s.pop()
